@@ -103,3 +103,9 @@ def run(eng, tier):
         'trusted_base': ['interpreter models (loops unrolled to 3 iterations)', 'addr_validate as oracle'],
         'not_decided': ['the integrality consequence (any admissible price x any admissible size is an integer) is lemma L-K over the guards checked here and in C07; not recomputed'], 'assumptions': [],
     }
+
+import probes as _pb
+PROBES = [
+    _pb.drop_facts('instantiate', None, '18 < msg.price_precision'),
+    _pb.drop_write('instantiate', None, 'version_info'),
+]
